@@ -19,6 +19,9 @@ import (
 	"verif/harness/transx"
 )
 
+const readlessCase = "r:200:755:root:0 - d755() /a#0ca623e2855f2c75c842ad302fe820e41b4d197d=600/500000/1/0102 " +
+	"/a=~>Fx#0ca623e2855f2c75c842ad302fe820e41b4d197d - - 0102>0ca623e2855f2c75c842ad302fe820e41b4d197d ch|-|-"
+
 func main() {
 	hx.Main("C09", func(c *hx.Ctx) {
 		dir := filepath.Join(c.Dir, "scratch")
@@ -75,6 +78,18 @@ func main() {
 				return nil
 			}
 			return cs
+		}
+		// One fixed case of the known deviation class=exec-without-read: a default
+		// file mode that EnsureDefaultFileModeValid accepts but that grants read
+		// permission to nobody (0200), and an executable file to create. The file
+		// is created without executability bits (markExecutableForReaders), the
+		// reported entry says executable. Outside the hypothesis FileModeOK of the
+		// theorems; the model agrees with the code on it.
+		if cs, err := transx.BuildFromLine(readlessCase, dir); err == nil {
+			c.Count("fixed:exec-without-read")
+			emit(cs)
+		} else {
+			harnessError(readlessCase, err)
 		}
 		n := c.Size(40, 1000)
 		for i := 0; i < n; i++ {
